@@ -7,6 +7,7 @@ import (
 	"io/fs"
 	"os"
 	"strings"
+	"sync"
 	"time"
 
 	"verifharness/internal/typenorm"
@@ -33,6 +34,29 @@ func (e *Env) Helper() (string, error) {
 		return "", fmt.Errorf("genhelper does not build against %s:\n%s", e.Repo, r.BuildOut)
 	}
 	return r.BinPath(), nil
+}
+
+var helperMemo struct {
+	mu   sync.Mutex
+	path map[string]string
+}
+
+// helperOnce is Helper, built once per process and repository.
+func (e *Env) helperOnce() (string, error) {
+	helperMemo.mu.Lock()
+	defer helperMemo.mu.Unlock()
+	if p, ok := helperMemo.path[e.Repo]; ok {
+		return p, nil
+	}
+	p, err := e.Helper()
+	if err != nil {
+		return "", err
+	}
+	if helperMemo.path == nil {
+		helperMemo.path = map[string]string{}
+	}
+	helperMemo.path[e.Repo] = p
+	return p, nil
 }
 
 // HelperReport is the JSON printed by genhelper.
@@ -65,9 +89,10 @@ type HelperReport struct {
 			OneWay     bool                          `json:"oneWay"`
 		} `json:"functions"`
 	} `json:"services"`
-	Problems []string `json:"problems"`
-	RawRoots int      `json:"rawRoots"`
-	Raw      string   `json:"-"`
+	Problems  []string `json:"problems"`
+	RawRoots  int      `json:"rawRoots"`
+	RootOrder []string `json:"rootOrder"`
+	Raw       string   `json:"-"`
 }
 
 // RunHelper runs genhelper for one thrift file of a job laid out in scratch
@@ -83,6 +108,12 @@ func (e *Env) RunHelper(helper, scratch string, j *Job, file, outDir, thriftRoot
 	}
 	if o.EnumStrict {
 		args = append(args, "-enum-text-marshal-strict")
+	}
+	if o.NoEmbedIDL {
+		args = append(args, "-no-embed-idl")
+	}
+	if o.NonStrict {
+		args = append(args, "-non-strict")
 	}
 	if o.OutputFile != "" {
 		args = append(args, "-output-file", o.OutputFile)
